@@ -605,6 +605,92 @@ class ModelFieldNS(SVal):
         return FieldVal(INFER(kw["name"].t, kw["value"].t))
 
 
+# ---- make_mandatory (C13: an optional inherited field becomes mandatory with the parent's type, nothing else) ----------------------------------
+from pyvc.containers import BOOL, ClassDecl, RefSort, SRef, SSeq, TRef  # noqa: E402
+
+ClassDecl("ModelFieldObj", {"required": BOOL})
+PARENT_T = z3.Function("parent_type_of_field", z3.StringSort(), Hint)  # field_parent_type(mcls, name) (bounded)
+UNOPT = z3.Function("type_without_Optional", Hint, Hint)  # util.typing.unoptional (bounded)
+
+
+def UNOPT_PARENT(n):
+    return UNOPT(PARENT_T(n))
+REQ_KEY = "ModelFieldObj.required"
+
+
+class MakeMandatory(FnSpec):
+    file = "schema/decorators.py"
+    qual = "make_mandatory.<locals>.make_fields_mandatory"
+    props = ("C13",)
+
+    def init(self):
+        self.bindings["_expect_schema_class"] = lambda cx, m: None
+        self.bindings["get_annotations"] = lambda cx, m: cx.ghost["mm"].own
+        self.bindings["unoptional"] = lambda cx, h: HintVal(UNOPT(h.t))
+        self.bindings["field_parent_type"] = lambda cx, m, n: HintVal(PARENT_T(n.t))
+
+        def inv(cx, env, it):
+            a = cx.ghost["mm"]
+            m = a.mcls
+            F, AN = m.fields["__fields__"], m.fields["__annotations__"]
+            N = a.names
+            j = z3.Int(fresh_name("mj"))
+            k = z3.String(fresh_name("mk"))
+            r = z3.Const(fresh_name("mr"), RefSort)
+            H, H0 = cx.heap_array(REQ_KEY, BOOL), a.req0
+            nj = N.at_term(j)
+            listed = lambda kk: z3.Exists([j], z3.And(0 <= j, j < it.i, N.at_term(j) == kk))  # noqa: E731
+            return [
+                ("names-so-far-are-mandatory-with-the-parents-type", z3.ForAll([j], z3.Implies(z3.And(0 <= j, j < it.i), z3.And(F.has(nj), z3.Not(a.own.has(nj)), z3.Select(H, F.get_term(nj)), AN.has(nj), AN.get_term(nj) == UNOPT_PARENT(nj))))),
+                ("field-table-itself-unchanged", F.same(cx, a.f0)),
+                ("other-annotations-unchanged", z3.ForAll([k], z3.Implies(z3.Not(listed(k)), z3.And(AN.has(k) == a.an0.has(k), AN.get_term(k) == a.an0.get_term(k))))),
+                ("other-fields-keep-their-requiredness", z3.ForAll([r], z3.Implies(z3.Not(z3.Exists([j], z3.And(0 <= j, j < it.i, F.get_term(N.at_term(j)) == r))), z3.Select(H, r) == z3.Select(H0, r)))),
+            ]
+
+        self.loops[0] = LoopSpec(inv, modifies=["name", "hint", "msg"], havoc_inplace=["mcls.__annotations__"], havoc_heap=[REQ_KEY], heap_types={REQ_KEY: BOOL})
+
+    def setup(self, cx):
+        m = ClsObj("SchemaCls", name="mcls")
+        m.fields["__name__"] = "Schema"
+        m.fields["__fields__"] = SMap.fresh(STR, TRef("ModelFieldObj"), "fields")
+        m.fields["__annotations__"] = SMap.fresh(STR, THint(), "annotations")
+        names = SSeq.fresh(STR, "names")
+        self.bindings["names"] = names
+        a = A(mcls=m)
+        a.names = names.snapshot() if hasattr(names, "snapshot") else names
+        a.own = SMap.fresh(STR, THint(), "own_annotations")
+        a.f0, a.an0 = m.fields["__fields__"].snapshot(), m.fields["__annotations__"].snapshot()
+        a.req0 = cx.heap_array(REQ_KEY, BOOL)
+        cx.ghost["mm"] = a
+        return a
+
+    raises_exact = False  # which name trips first depends on the order; a raise is justified, a normal return means no name needed refusal
+
+    def refused(self, a, k):
+        return z3.Or(z3.Not(a.f0.has(k)), a.own.has(k))
+
+    def raises(self, cx, a):
+        j = z3.Int(fresh_name("xj"))
+        return {"ValueError": z3.Exists([j], z3.And(0 <= j, j < a.names.n, self.refused(a, a.names.at_term(j))))}
+
+    def ensures(self, cx, a, res):
+        m = a.mcls
+        F, AN = m.fields["__fields__"], m.fields["__annotations__"]
+        N = a.names
+        j = z3.Int(fresh_name("ej"))
+        k = z3.String(fresh_name("ek"))
+        r = z3.Const(fresh_name("er"), RefSort)
+        H = cx.heap_array(REQ_KEY, BOOL)
+        nj = N.at_term(j)
+        listed = lambda kk: z3.Exists([j], z3.And(0 <= j, j < N.n, N.at_term(j) == kk))  # noqa: E731
+        return [
+            ("every-named-field-is-mandatory-with-the-parents-type", z3.ForAll([j], z3.Implies(z3.And(0 <= j, j < N.n), z3.And(z3.Select(H, F.get_term(nj)), AN.has(nj), AN.get_term(nj) == UNOPT_PARENT(nj)))), "each named field becomes required and gets as type hint the parent's type without Optional — a narrowing, never another type"),
+            ("only-inherited-fields-not-redeclared-here", z3.ForAll([j], z3.Implies(z3.And(0 <= j, j < N.n), z3.Not(self.refused(a, nj)))), "the decorator is refused for names that are no fields, or that the class declares itself"),
+            ("nothing-else-changes", z3.And(F.same(cx, a.f0), z3.ForAll([k], z3.Implies(z3.Not(listed(k)), z3.And(AN.has(k) == a.an0.has(k), AN.get_term(k) == a.an0.get_term(k)))), z3.ForAll([r], z3.Implies(z3.Not(z3.Exists([j], z3.And(0 <= j, j < N.n, F.get_term(N.at_term(j)) == r))), z3.Select(H, r) == z3.Select(a.req0, r)))), "no other field's requiredness or annotation is touched"),
+            ("returns-the-class", z3.BoolVal(res is m), "usable as a decorator"),
+        ]
+
+
 def schema_cls(cx):
     sch = ClsObj("SchemaCls", name="schema")
     sch.fields["__name__"] = "Schema"
@@ -1123,7 +1209,7 @@ def build_c20_schema(reg):
 
 def build_c13(reg):
     reg.method_bindings[("SchemaMagic", "super.__new__")] = pydantic_new
-    specs = [CheckTypes(), IsPubInstanceField(), DetectFieldOverrides(), CheckOverrides(), IsSubtype(), SchemaMagicNew()]
+    specs = [CheckTypes(), IsPubInstanceField(), DetectFieldOverrides(), CheckOverrides(), IsSubtype(), SchemaMagicNew(), MakeMandatory()]
     for s in specs:
         reg.add(s)
     return specs
